@@ -397,7 +397,13 @@ def add_kerning(model, rng, pairs=20, groups=True, divergent=0.0, partial=0.0, z
                 k = rng.randint(1, 3)
                 members, pool = pool[:k], pool[k:]
                 if members:
-                    out[f"{side}g{gi}"] = sorted(members)
+                    nm = f"g{gi}"
+                    # names that look like the compiler's own names for split classes (<group>_<n>) next to the group they mimic
+                    if gi and rng.random() < 0.4:
+                        cand = f"g{rng.randrange(gi)}_{rng.randint(1, 2)}"
+                        if side + cand not in out:
+                            nm = cand
+                    out[side + nm] = sorted(members)
         return out
     base_groups = grouping()
     firsts = names + [g for g in base_groups if g.startswith("public.kern1.")]
@@ -460,6 +466,42 @@ def add_kerning(model, rng, pairs=20, groups=True, divergent=0.0, partial=0.0, z
             kern = {}
         m["groups"] = {k: v for k, v in gr.items() if v}
         m["kerning"] = kern
+    # a consistent group named like a piece of a divergent one: the compiler names the classes it splits a divergent group
+    # into <group>_<n>; a source group that already carries such a name (and is kerned) must keep its own members and values
+    r3 = random.Random(rng.random())
+    if groups and divergent and r3.random() < 0.8:
+        allg = sorted({k for m in full for k in m["groups"]})
+        div = [k for k in allg if len({tuple(sorted(m["groups"].get(k, []))) for m in full}) > 1]
+        r3.shuffle(div)
+        for x in div[:2]:
+            side = x[:13]
+            used = {g for m in full for k, v in m["groups"].items() if k.startswith(side) for g in v}
+            free = [g for g in names if g not in used]
+            mimic = f"{x}_{1 if r3.random() < 0.8 else 2}"
+            if any(mimic in m["groups"] for m in full):
+                continue
+            if not free:
+                # release a glyph from a group that can spare it (>= 2 members wherever it is listed), other than x itself
+                for g in r3.sample(names, len(names)):
+                    holders = [(m, k) for m in full for k, v in m["groups"].items() if k.startswith(side) and g in v]
+                    if holders and all(k != x and len(m["groups"][k]) >= 2 for m, k in holders):
+                        for m, k in holders:
+                            m["groups"][k].remove(g)
+                        free = [g]
+                        break
+            if not free:
+                continue
+            members = sorted(r3.sample(free, min(len(free), r3.randint(1, 2))))
+            others = [g for g in names if g not in members]
+            for mi, m in enumerate(full):
+                m["groups"][mimic] = list(members)
+                for o in others[:3]:
+                    v = r3.choice([-1, 1]) * r3.randint(5, 90)
+                    model.setdefault("kern_mimic_groups", []).append(mimic) if mi == 0 and o == others[0] else None
+                    if side == "public.kern1.":
+                        m["kerning"].setdefault(mimic, {})[o] = v
+                    else:
+                        m["kerning"].setdefault(o, {})[mimic] = v
     # exceptions that restate what they override: (a, @G2) with the value of (@G1, @G2) in every master, next to a
     # (@G1, b) exception with b in @G2 - the glyph-group pair still outranks the group-glyph one for (a, b)
     r2 = random.Random(rng.random())
